@@ -4,7 +4,8 @@ Model: coq/theories/HCM/{Model,Load,Periodic}.v (hand-written).  Tie: correspond
 model and the real FKMNonlinearDetector (an integer-valued law object is injected so that every float operation is exact),
 on exhaustive small alphabets, random sequences and forced junction configurations.  On EVERY run the property's own relation
 (pass-2 records of the implementation = steady_cycles of the sequence, Memory 3 only in pass 1 and symmetric, refinement by
-non-reversal samples, stationarity of a third pass) is evaluated on the implementation: that is the failing-input search.
+non-reversal samples, stationarity of a third pass, length of a trailing plateau irrelevant) is evaluated on the implementation:
+that is the failing-input search.
 Known finding: the junction defect outside the class `z and p` (DESIGN 6/C04)."""
 import json
 import os
@@ -35,7 +36,11 @@ MANIFEST = dict(
          'loads, |loads| and extents lying within a small error of a grid c*level decide like the integer comparison of the levels, so the integer '
          'model also speaks about float inputs whose extreme loads / extents tie only up to rounding; these are generated on every run '
          '(levels scaled by c, each occurrence moved by a few ulps, error budget checked in exact rational arithmetic) and the detector must '
-         'record what the model records for the levels.',
+         'record what the model records for the levels. Repeated samples: squeeze_insensitive (unbounded, every number of passes) -- two '
+         'sequences with the same samples up to repetition and the same flush decision of the first pass have the same records and HCM memory; '
+         'dwell_insensitive (unbounded) -- the length of a trailing plateau of two or more samples is irrelevant. On every run blocks ending '
+         'in a plateau of 2 and of L = 3..130 samples (and long monotone runs, leading / interior plateaus) go through the correspondence, and the '
+         'implementation must count the two plateau lengths alike (one and three assessment points).',
     note=common.TB_NOTE + 'all C04 theorems are closed under the global context (no axioms). The model is hand-written: the correspondence harness, '
          'the injected integer-valued law object and the Python search oracle (tied to HCM/Periodic.v by vm_compute each run) are trusted; '
          'loads are integers in the model (exact on doubles); the 1e-12 tolerances of the code are exercised by float inputs with ulp-level '
